@@ -16,6 +16,9 @@ pub trait Serialize: Sized {
 pub trait Deserialize {}
 }
 pub mod de {
+    use vstd::prelude::*;
+    verus! {
     pub trait DeserializeOwned {}
     impl<T: super::Serialize> DeserializeOwned for T {}
+    }
 }
